@@ -352,6 +352,128 @@ func (c c06Case) trailer() (msg []byte, closeAfter bool, name string) {
 }
 
 // ---------------------------------------------------------------------------
+// in-memory connection
+//
+// A buffered, channel-based duplex byte stream: Write never blocks (as on a
+// reliable tube, which queues what it is given), Read blocks until data, close
+// or the read deadline. net.Pipe is NOT used: its zero-length writes
+// rendezvous with a reader, and both the real encoder (WriteString of an empty
+// string as the last field of a message) and io.CopyN(…, 0) on the decoding
+// side make that a deadlock that no real tube has.
+
+type c06Half struct {
+	mu      sync.Mutex
+	buf     []byte
+	wake    chan struct{}
+	wclosed bool // the writing end was closed: reader sees EOF after the buffered bytes
+	rclosed bool // the reading end was closed: writes fail
+}
+
+func (h *c06Half) poke() {
+	select {
+	case h.wake <- struct{}{}:
+	default:
+	}
+}
+
+type c06End struct {
+	in, out  *c06Half
+	dmu      sync.Mutex
+	deadline time.Time
+}
+
+func c06Pipe() (*c06End, *c06End) {
+	a := &c06Half{wake: make(chan struct{}, 1)}
+	b := &c06Half{wake: make(chan struct{}, 1)}
+	return &c06End{in: a, out: b}, &c06End{in: b, out: a}
+}
+
+func (e *c06End) Read(p []byte) (int, error) {
+	if len(p) == 0 {
+		return 0, nil
+	}
+	for {
+		h := e.in
+		h.mu.Lock()
+		if h.rclosed {
+			h.mu.Unlock()
+			return 0, io.ErrClosedPipe
+		}
+		if len(h.buf) > 0 {
+			n := copy(p, h.buf)
+			h.buf = h.buf[n:]
+			h.mu.Unlock()
+			return n, nil
+		}
+		if h.wclosed {
+			h.mu.Unlock()
+			return 0, io.EOF
+		}
+		h.mu.Unlock()
+		e.dmu.Lock()
+		dl := e.deadline
+		e.dmu.Unlock()
+		if dl.IsZero() {
+			<-h.wake
+			continue
+		}
+		d := time.Until(dl)
+		if d <= 0 {
+			return 0, os.ErrDeadlineExceeded
+		}
+		tm := time.NewTimer(d)
+		select {
+		case <-h.wake:
+			tm.Stop()
+		case <-tm.C:
+			return 0, os.ErrDeadlineExceeded
+		}
+	}
+}
+
+func (e *c06End) Write(p []byte) (int, error) {
+	h := e.out
+	h.mu.Lock()
+	defer h.mu.Unlock()
+	if h.wclosed || h.rclosed {
+		return 0, io.ErrClosedPipe
+	}
+	h.buf = append(h.buf, p...)
+	h.poke()
+	return len(p), nil
+}
+
+func (e *c06End) Close() error {
+	e.out.mu.Lock()
+	e.out.wclosed = true
+	e.out.poke()
+	e.out.mu.Unlock()
+	e.in.mu.Lock()
+	e.in.rclosed = true
+	e.in.poke()
+	e.in.mu.Unlock()
+	return nil
+}
+
+type c06Addr struct{}
+
+func (c06Addr) Network() string { return "c06" }
+func (c06Addr) String() string  { return "c06" }
+
+func (e *c06End) LocalAddr() net.Addr  { return c06Addr{} }
+func (e *c06End) RemoteAddr() net.Addr { return c06Addr{} }
+func (e *c06End) SetDeadline(t time.Time) error {
+	return e.SetReadDeadline(t)
+}
+func (e *c06End) SetReadDeadline(t time.Time) error {
+	e.dmu.Lock()
+	e.deadline = t
+	e.dmu.Unlock()
+	return nil
+}
+func (e *c06End) SetWriteDeadline(time.Time) error { return nil }
+
+// ---------------------------------------------------------------------------
 // the world of one case
 
 type c06Ev struct {
@@ -470,7 +592,7 @@ func (w *c06World) setup(u core.URL, verify AdditionalVerifyCallback) (net.Conn,
 		w.log(c06Ev{Kind: "setup", Note: "fail-late"})
 		return nil, errors.New("c06: user authorization failed")
 	}
-	pEnd, tEnd := net.Pipe()
+	pEnd, tEnd := c06Pipe()
 	w.mu.Lock()
 	idx := len(w.pEnds)
 	w.pEnds = append(w.pEnds, pEnd)
@@ -525,7 +647,6 @@ func (w *c06World) scriptedTarget(idx int, c net.Conn) {
 				g[0] = 0
 			}
 			w.log(c06Ev{Kind: "tact", Conn: idx, Note: "garbage"})
-			c.SetWriteDeadline(time.Now().Add(time.Second)) // the principal may stop reading early
 			c.Write(g)
 			return
 		default:
@@ -600,7 +721,7 @@ func (w *c06World) readAnswers(c net.Conn) {
 
 // scenario runs inside the bubble.
 func (w *c06World) scenario() {
-	dP, dD := net.Pipe() // principal's end, delegate's end
+	dP, dD := c06Pipe() // principal's end, delegate's end
 	w.wg.Add(1)
 	go func() {
 		defer w.wg.Done()
@@ -610,14 +731,12 @@ func (w *c06World) scenario() {
 	for k := range w.c.Reqs {
 		w.setCur(k)
 		msg := append([]byte{1}, w.c.wire(k).body()...)
-		dD.SetWriteDeadline(time.Now().Add(10 * time.Second))
 		_, err := dD.Write(msg)
 		w.log(c06Ev{Kind: "reqwrite", OK: err == nil})
 		w.readAnswers(dD)
 	}
 	if msg, closeAfter, _ := w.c.trailer(); msg != nil {
 		w.setCur(len(w.c.Reqs))
-		dD.SetWriteDeadline(time.Now().Add(10 * time.Second))
 		dD.Write(msg)
 		if closeAfter {
 			dD.Close()
@@ -741,13 +860,13 @@ func c06Judge(c c06Case, evs []c06Ev, v *vlib.Verdict) {
 				p = "new-target"
 			}
 			if refused {
-				v.Failf("C06:forwarded-without-approval:refused:"+p, "request %d: the approval callback refused, yet the principal wrote %d bytes (% x...) on target connection %d",
-					k, len(e.Bytes), e.Bytes[:min(len(e.Bytes), 8)], e.Conn)
+				v.Failf("C06:forwarded-without-approval:refused:"+p, "request %d of decisions %s: the approval callback refused, yet the principal wrote on target connection %d (%s)",
+					k, c06Decisions(c), e.Conn, c06Aftermath(win, sent))
 				return
 			}
 			if shown == nil {
-				v.Failf("C06:forwarded-without-approval:not-asked:"+p, "request %d: the principal wrote %d bytes on target connection %d before any accepting callback invocation for this request",
-					k, len(e.Bytes), e.Conn)
+				v.Failf("C06:forwarded-without-approval:not-asked:"+p, "request %d of decisions %s: the principal wrote on target connection %d before any accepting callback invocation for this request (%s)",
+					k, c06Decisions(c), e.Conn, c06Aftermath(win, sent))
 				return
 			}
 			if _, ok := perConn[e.Conn]; !ok {
@@ -826,6 +945,44 @@ func c06Judge(c c06Case, evs []c06Ev, v *vlib.Verdict) {
 		v.Label("answer:" + a.Note)
 		v.Label("class:" + class + ":" + path)
 	}
+}
+
+func c06Decisions(c c06Case) string {
+	b := make([]byte, len(c.Reqs))
+	for k, r := range c.Reqs {
+		b[k] = 'D'
+		if r.Approve {
+			b[k] = 'A'
+		}
+	}
+	return string(b)
+}
+
+// c06Aftermath summarises, for a violation report, what the unapproved write led to.
+func c06Aftermath(win []c06Ev, sent c06Wire) string {
+	nbytes := 0
+	var parts []string
+	for _, e := range win {
+		switch e.Kind {
+		case "twrite":
+			nbytes += len(e.Bytes)
+		case "tmsg", "rtcheck":
+			if c06Diff(e.W, sent) == "" {
+				parts = append(parts, "the target received the complete requested intent")
+			} else {
+				parts = append(parts, "the target received an intent")
+			}
+		case "rtadd":
+			if e.OK {
+				parts = append(parts, "the real target instance stored the grant")
+			}
+		case "tact":
+			parts = append(parts, "target script: "+e.Note)
+		case "answer":
+			parts = append(parts, "delegate was answered: "+e.Note)
+		}
+	}
+	return fmt.Sprintf("%d bytes written; %s", nbytes, strings.Join(parts, "; "))
 }
 
 func (w c06Wire) show(field string) string {
@@ -1180,6 +1337,6 @@ func TestVerifC06Histories(t *testing.T) {
 	logrus.SetOutput(io.Discard)
 	logrus.SetLevel(logrus.PanicLevel)
 	c06SelfTest(t)
-	vlib.Drive(t, vlib.Spec[c06Case]{ID: "C06", Quick: 24000, Gen: c06Gen,
+	vlib.Drive(t, vlib.Spec[c06Case]{ID: "C06", Quick: 120000, Gen: c06Gen,
 		Run: func(c c06Case, v *vlib.Verdict) { c06RunWith(t, c, v) }})
 }
